@@ -90,6 +90,14 @@ def finishPools (st : St) : St × List Issue :=
     -- the property's predicates on the implementation's own pools
     let withMem := (m.nodes.filter (·.memTotal > 0)).map (·.id)
     let errs := poolsWF st.pools st.allowed withMem
+    -- CPU-less PMEM/HBM nodes: attached to exactly the (non-root) pools that contain one of their closest CPU-bearing DRAM nodes
+    let cpuless := (m.nodes.filter (fun n => n.cpus.isEmpty && n.memTotal > 0)).map (·.id)
+    let errs := st.pools.foldl (fun errs b =>
+      if b.parent == "-" then errs else
+      let own := (b.dram ++ b.pmem ++ b.hbm).filter (fun i => !cpuless.contains i)
+      let want := m.closestSpecialMem own
+      let got := (b.pmem ++ b.hbm ++ b.dram).filter (cpuless.contains ·)
+      if !(subset want got && subset got want) then errs ++ [s!"C16:special-memory-attachment {b.name}: attached {got}, closest-rule gives {want}"] else errs) errs
     -- tree-shape rules
     let multi := m.pkgIds.length > 1
     let errs := if multi != st.pools.any (·.kind == "virtual node") then errs ++ ["virtual root iff several sockets"] else errs
